@@ -102,7 +102,79 @@ def gen(tier, rng):
         yield dict(id="line/%d/%s/%s" % (c, ctx, fail), prog=prog, flags=flags, stdin=stdin, check=check)
 
 
+FAIL_EXPRS = ["1 / 0", '-"s"', "len(1)", "map {1: 2}[7]", '"a" - 1', "5()", "[1] < [2]", "(1).src"]
+# multi-line enclosing constructs; @F@ is a failing single-line expression standing alone on its line
+SPLIT = [
+    "let q =\n@F@;",
+    "let q = 1 +\n@F@;",
+    "puts(1,\n@F@,\n3);",
+    "fn g(a, b) { return a; }\ng(\n1,\n@F@\n);",
+    "let a = [\n1,\n@F@,\n3\n];",
+    "let m = map {\n1: 2,\n3:\n@F@\n};",
+    "if\n@F@\n{ puts(1); }",
+    "if false {\n1;\n} else if\n@F@\n{ 2; }",
+    "while\n@F@\n{ break; }",
+    "let r = match 1 {\n1 => {\n@F@\n}\n_ => { 0 }\n};",
+    "let r = match\n@F@\n{ 1 => { 1 } _ => { 0 } };",
+    "let r = true &&\n@F@;",
+    "let r = false ||\n@F@;",
+    "let r = !\n@F@;",
+    "let a = [1, 2];\na[\n@F@\n];",
+    "let f = fn() {\nreturn\n@F@;\n};\nf();",
+    "loop {\nif true {\n@F@;\n}\nbreak;\n}",
+]
+# a range / literal pattern that cannot be compared with the scrutinee: the failing comparison is the pattern's
+RANGE = [
+    ('match "ten" {\n@P@ |\n10..20\n=> { 1 }\n_ => { 0 }\n}', "0..10"),
+    ('match "ten" {\n1 => { 1 }\n@P@\n=>\n{ 2 }\n_ => { 0 }\n}', "0..=10"),
+    ("match 'c' {\n@P@\n=> { 1 }\n_ => { 0 }\n}", "0..10"),
+    ('match [1] {\n@P@ => { 1 }\n_ => { 0 }\n}', "0..10"),
+    ('let s = "x";\nlet r = match s {\n@P@ |\n5..7 | 8..9\n=> { 1 }\n_ => { 0 } };', "20..30"),
+]
+
+
+def gen_split(tier, rng):
+    n = 0
+    for t in SPLIT:
+        for fe in (FAIL_EXPRS if tier != "quick" else rng.sample(FAIL_EXPRS, 4)):
+            pre = body(rng, rng.randint(0, 4), 500)
+            lines = pre + t.replace("@F@", "(" + fe + ")").split("\n")
+            L = len(pre) + 1 + t.split("\n").index("@F@") if "@F@" in t.split("\n") else len(pre) + 1 + next(i for i, x in enumerate(t.split("\n")) if "@F@" in x)
+            prog = "\n".join(lines) + "\n"
+
+            def check(r, L=L, fe=fe, prog=prog):
+                m = no_panic(r)
+                if m:
+                    return m
+                mm = re.search(r"\[line (\d+)\] Runtime error", r.etext)
+                if not mm:
+                    return None if ("parse error" in r.etext or "compile error" in r.etext) else "expected a runtime error on line %d (%s); stderr=%r\n%s" % (L, fe, r.etext[:200], prog[:400])
+                if int(mm.group(1)) != L:
+                    return "the failing construct `%s` is on line %d, the runtime error reports line %s\n%s" % (fe, L, mm.group(1), prog[:500])
+            n += 1
+            yield dict(id="split/%d/%s" % (n, fe), prog=prog, check=check)
+    for t, pat in RANGE:
+        pre = body(rng, rng.randint(0, 3), 600)
+        tl = t.split("\n")
+        L = len(pre) + 1 + next(i for i, x in enumerate(tl) if "@P@" in x)
+        prog = "\n".join(pre + t.replace("@P@", pat).split("\n")) + "\n"
+
+        def check(r, L=L, prog=prog):
+            m = no_panic(r)
+            if m:
+                return m
+            mm = re.search(r"\[line (\d+)\] Runtime error", r.etext)
+            if not mm:
+                return None      # the scrutinee happened to be comparable / the form is rejected: nothing to judge
+            if int(mm.group(1)) != L:
+                return "the pattern that cannot be compared is on line %d, the runtime error reports line %s\n%s" % (L, mm.group(1), prog[:500])
+        n += 1
+        yield dict(id="range/%d" % n, prog=prog, check=check)
+
+
 GROUPS = [
     dict(name="C13/reported-line", clause="the reported line is the line holding the failing operator, index, call, property access or builtin invocation, however many lines, functions and filter statements precede it",
          bound="260/4000 seeded programs: 17 failing constructs x 5 contexts (top level, function body, nested blocks, filter action, function called from a filter) after 0-7 random statements of 16 forms", gen=gen),
+    dict(name="C13/split-constructs", clause="same, when the failing single-line construct stands on its own line inside an enclosing construct that spans several lines (call arguments, literals, conditions, match scrutinee / arm / pattern, operands of a binary operator)",
+         bound="17 multi-line enclosing shapes x 4 (8) failing expressions, 5 match-pattern shapes", gen=gen_split),
 ]
